@@ -1,3 +1,34 @@
-From CandidV Require Import model.Annot.
-Theorem C04_placeholder : True. Proof. exact I. Qed.
-Print Assumptions C04_placeholder.
+(* C04 -- Accepted subtyping means decoding at the supertype cannot fail. *)
+From Coq Require Import List NArith ZArith.
+From CandidV Require Import model.Coerce proofs.SubProofs proofs.WireProofs proofs.CoerceProofs.
+Open Scope N_scope.
+
+(* Soundness of subtyping for coercion (spec, Properties):  t <: t'  =>  every v : t coerces to t'.
+   Stated for closed, productive, class-free environments with unique field ids (what check_prog and the
+   header parser establish: [wf_env], [ty_closed]).  The coercion function is fuel-indexed; [okf] says the
+   outcome is a value or fuel exhaustion, never "no coercion" and never an error. *)
+Theorem C04_soundness : forall E, wf_env E = true -> forall f v t t',
+  ty_closed E t = true -> ty_closed E t' = true -> Sub E t t' -> has_type E v t = true -> okf (coerce f E v t t').
+Proof. exact coerce_sound. Qed.
+
+(* ... and the result is a value of t' *)
+Theorem C04_result_typed : forall E, wf_env E = true -> forall f v t t',
+  ty_closed E t' = true -> has_type E v t = true -> good E t' (coerce f E v t t').
+Proof. exact coerce_typed. Qed.
+
+(* the checker the implementation is compared with decides Sub *)
+Theorem C04_checker : forall E a b, sub_dec_fast E a b = true <-> Sub E a b.
+Proof. exact sub_dec_fast_correct. Qed.
+
+(* non-vacuity: a recursive list type and an upgrade (nat -> int, new optional field) *)
+Example C04_ex :
+  let E := [([76], TOpt (TRec [(0, TPrim PNat); (1, TVar [76])]));
+            ([75], TOpt (TRec [(0, TPrim PInt); (1, TVar [75]); (7, TOpt (TPrim PText))]))] in
+  wf_env E = true /\ ty_closed E (TVar [76]) = true /\ ty_closed E (TVar [75]) = true /\ sub_dec_fast E (TVar [76]) (TVar [75]) = true /\
+  coerce 20 E (VOpt (Some (VRec [(0, VNat 1); (1, VOpt None)]))) (TVar [76]) (TVar [75])
+    = Ok (VOpt (Some (VRec [(0, VInt 1); (1, VOpt None); (7, VOpt None)]))).
+Proof. vm_compute. repeat split; reflexivity. Qed.
+
+Print Assumptions C04_soundness.
+Print Assumptions C04_result_typed.
+Print Assumptions C04_checker.
